@@ -416,6 +416,57 @@ func zzC04_stale() {
 	symAssert(delivered == 0 || bytes.Equal(deliveredBody, body), "a block arriving after its transfer expired is never presented as a complete body")
 }
 
+// an upload is abandoned part-way; its transfer timeout passes (with or without a housekeeping sweep); a new upload
+// with the same token and another body arrives: the application receives the new body or nothing - never the old
+// prefix continued by new blocks
+func zzC04_abandoned_then_new() {
+	l := zzNewLink(0, 0)
+	tok := message.Token{0xE1, 0xE2}
+	oldBody, newBody := symBytes("old", 40), symBytes("new", 40)
+	var got [][]byte
+	l.srvApp = func(w *responsewriter.ResponseWriter[*zzBWClient], r *pool.Message) {
+		got = append(got, append([]byte(nil), zzBody(r)...))
+		_ = w.SetResponse(codes.Changed, message.TextPlain, nil)
+	}
+	block := func(body []byte, num int) *pool.Message {
+		m := pool.NewMessage(context.Background())
+		m.SetCode(codes.POST)
+		m.SetToken(tok)
+		_ = m.SetPath("/up")
+		lo, hi := num*16, num*16+16
+		more := true
+		if hi >= len(body) {
+			hi, more = len(body), false
+		}
+		v, _ := EncodeBlockOption(SZX16, int64(num), more)
+		m.SetOptionUint32(message.Block1, v)
+		m.SetBody(bytes.NewReader(body[lo:hi]))
+		return m
+	}
+	sent := 1 + symChoose("blocks-before-abandon", 2) // 1 or 2 of the 3 blocks
+	for k := 0; k < sent; k++ {
+		_ = l.toServer(block(oldBody, k))
+	}
+	symAssert(len(got) == 0, "nothing is delivered from an incomplete upload")
+	// the transfer timeout (1 h) passes
+	late := time.Unix(0, 1<<41+int64(2*time.Hour))
+	symSetNow(late)
+	if symChoose("swept", 2) == 1 {
+		l.srv.CheckExpirations(late)
+		symCover("swept")
+	} else {
+		symCover("not-swept-yet")
+	}
+	for k := 0; k < 3; k++ {
+		_ = l.toServer(block(newBody, k))
+	}
+	symAssert(len(got) <= 1, "at most one body is delivered")
+	if len(got) == 1 {
+		symCover("new-delivered")
+		symAssert(bytes.Equal(got[0], newBody), "the application receives the new upload's body - never the expired prefix continued by new blocks")
+	}
+}
+
 func zzC04_selftest() {
 	l := zzNewLink(0, 0)
 	body := symBytes("body", 17)
